@@ -63,7 +63,62 @@ def bounds(tier, seed):
 
 def explore(tier, seed):
     pats, _ = pattern_set(tier, seed)
-    return pool.run_chunks(run_chunk, [(p.text, tier) for p in pats])
+    chunks = [(p.text, tier) for p in pats]
+    # start version taken from VCS tags (fake git): the announced version must exceed the newest tag in scope
+    from . import c09
+
+    for name in c09.PATTERNS:
+        for pos in ("below", "between", "above"):
+            chunks.append(("@tags", name, pos, 5 if tier == "quick" else 7))
+    return pool.run_chunks(run_chunk, chunks)
+
+
+def run_tags_chunk(chunk):
+    """Tag placements x scopes: `update --dry` must announce a version greater than the reference start version."""
+    import datetime as dt
+
+    from .. import fakevcs
+    from . import c09
+
+    _k, name, pos, n = chunk
+    st = Stats()
+    world.set_today(dt.date(2020, 3, 20))
+    d = pool.fresh_dir("c01t")
+    os.chdir(d)
+    P = c09.PATTERNS[name]
+    tags = P["tags"][:n]
+    cfgv = P["configs"][pos]
+    for placement in itertools.product(c09.PLACES, repeat=n):
+        served_all = [t for t, pl in zip(tags, placement) if pl != "absent"]
+        served_head = [t for t, pl in zip(tags, placement) if pl == "head"]
+        for scope in c09.SCOPES:
+          for bump in P.get("bumps", [P["bump"]]):
+            world.clear_dir(".")
+            world.write_tree(c09.project(name, cfgv, scope))
+            os.mkdir(".git")
+            fake = fakevcs.install(fakevcs.FakeVCS("git", tags_all=served_all, tags_merged=served_head, status=[]))
+            try:
+                o = world.cli("update", "--dry", "--no-fetch", *bump)
+            finally:
+                fakevcs.uninstall()
+            st.evaluations += 1
+            st.transitions += 1
+            st.validated += 1
+            st.state("tags", name, pos, scope, placement)
+            st.observe((name, pos, scope, placement, o.exit, o.new_version))
+            case = {"tags_case": name, "config": cfgv, "scope": scope, "bump": bump, "tags": {t: pl for t, pl in zip(tags, placement) if pl != "absent"}}
+            if o.exit != 0:
+                st.outcomes["update --dry:refused(tags)"] += 1
+                continue
+            st.outcomes["update --dry:ok(tags)"] += 1
+            st.nontriv("tags", name, pos, scope, placement)
+            want = c09.expected_start(name, cfgv, scope, False, placement, tags)
+            new = o.new_version
+            if new is None or not all(bg.greater(new, s_) for s_ in want):
+                st.violation(f"C01:announced-version-not-greater-than-newest-tag-in-scope:{name}:{scope}", case,
+                             {"announced": new, "reference_start_version": sorted(want), "old_version_line": o.old_version})
+    os.chdir("/")
+    return st
 
 
 def set_version_targets(pat, state, old_text):
@@ -125,6 +180,8 @@ def project_files(pat, old_text):
 
 
 def run_chunk(chunk):
+    if chunk[0] == "@tags":
+        return run_tags_chunk(chunk)
     text, tier = chunk
     st = Stats()
     pat = grammar.Pat(M.parse_pattern(text))
@@ -250,6 +307,12 @@ def replay(case, st):
     import datetime as dt
 
     world.set_today(bg.FAR_TODAY)
+    if "tags_case" in case:
+        from . import c09
+
+        pos = [k for k, v in c09.PATTERNS[case["tags_case"]]["configs"].items() if v == case["config"]][0]
+        st.merge(run_tags_chunk(("@tags", case["tags_case"], pos, 5)))
+        return
     pat = grammar.Pat(M.parse_pattern(case["pattern"]))
     args = case["args"]
     rev = {"major": "--major" in args, "minor": "--minor" in args, "patch": "--patch" in args,
